@@ -87,7 +87,8 @@ def binding_demo(run, lines, kind, field_lo, field_hi, big, small, rejected=()):
 
 FIRSTUSE = ["d-from16", "d-enc-nrgba64", "d-enc-rgba64", "d-enc-gray16", "d-enc-nrgba", "d-enc-gray", "d-lin-nrgba64",
             "d-lin-rgba64", "d-lin-gray", "d-linimg", "e-to16", "e-enc-rgba64", "e-enc-nrgba64", "e-enc-translucent", "e-enc-gray16",
-            "e-torgba64", "e-torgba64-half", "e-encimg"]
+            "e-torgba64", "e-torgba64-half", "e-encimg",
+            "d-from8", "d-fromrgba8", "d-fromnrgba8", "e-to8", "e-tonrgba8", "e-torgba8"]
 
 
 FIRSTUSE_MSG = "%s entry point %s as the first call of a fresh process (GOMAXPROCS %s) returned %s; repeated later %s; per-component functions %s %s"
